@@ -243,6 +243,7 @@ class Tensor:
     def _get_index_mapping(self, index: TensorIndex) -> list[int | None]:
         normalized_index = normalize_index(index, self.shape)  # type: ignore[no-untyped-call]
         advanced_indices = []
+        advanced_arrays = []
         index_mapping: list[int | None] = list(range(self.rank))
         i = 0
         for ind in normalized_index:
@@ -258,19 +259,23 @@ class Tensor:
             # advanced indexing
             elif isinstance(ind, np.ndarray):
                 advanced_indices.append(i)
+                advanced_arrays.append(ind)
 
             i += 1
 
         if len(advanced_indices) == 0:
             return index_mapping
 
-        b = np.broadcast(*[normalized_index[i] for i in advanced_indices])
+        b = np.broadcast(*advanced_arrays)
         a0, a1 = advanced_indices[0], advanced_indices[-1]
 
-        if advanced_indices != list(range(a0, a1 + 1)):
+        # numpy treats integers like index arrays when it decides whether the advanced indices are adjacent
+        positions = [k for k, ind in enumerate(normalized_index) if isinstance(ind, (int, np.ndarray))]
+
+        if positions != list(range(positions[0], positions[-1] + 1)):
             # create advanced indices in front
-            for i in advanced_indices:
-                index_mapping.remove(i)
+            for i in reversed(advanced_indices):
+                index_mapping.pop(i)
             new_indices: list[int | None] = [None] * b.ndim
             return new_indices + index_mapping
         else:
